@@ -72,7 +72,7 @@ type Farm struct {
 	A, B *sim.User
 	E    *sim.EthUser
 
-	Contract   map[string]ethcmn.Address        // store, revert, loop: contracts deployed by E in the prefix
+	Contract   map[string]ethcmn.Address        // store, revert, loop: contracts deployed in the prefix
 	P          map[string]governance.ProposalID // fund, cancel, vote, withdraw, finalize
 	LockRaw    []byte                           // ongoing ETH lock tracker (report-finality subject)
 	Log        []string                         // prefix execution log: "h=.. KIND code log"
@@ -135,18 +135,21 @@ func BuildFarm(w *World, o FarmOpts) *Farm {
 
 	run() // block 1: fork switch (EVM on, staking options forced)
 	f.LockRaw = txgen.EthLockRaw(f.E, f.ethNonce(), &sim.LockRedeemContract, big.NewInt(1000000))
-	// three contracts deployed by E (nonces 0..2): runtime SSTORE(0, calldata) / REVERT / endless loop
+	// three contracts: runtime SSTORE(0, calldata) / REVERT / endless loop. They are deployed by
+	// ANOTHER ethereum key, so that E's own nonce still starts at 0 after the prefix (materialised
+	// replay files of OLVM subjects stay valid)
+	dep := u.Eth[(o.Eth+1)%len(u.Eth)]
 	f.Contract = map[string]ethcmn.Address{}
 	var deploys []txgen.Tx
 	for i, c := range []struct {
 		name string
 		rt   []byte
 	}{{"store", rtStore}, {"revert", rtRevert}, {"loop", rtLoop}} {
-		d := txgen.OLVM(f.E, txgen.OLVMArgs{ChainID: p.ChainID, Nonce: uint64(i), Data: initCode(c.rt),
+		d := txgen.OLVM(dep, txgen.OLVMArgs{ChainID: p.ChainID, Nonce: uint64(i), Data: initCode(c.rt),
 			Fee: txgen.Fee{Price: big.NewInt(1000000000), Cur: "OLT", Gas: 300000}})
-		d.Note = fmt.Sprintf("olvm:%s:%d", f.E.Name, i)
+		d.Note = fmt.Sprintf("olvm:%s:%d", dep.Name, i)
 		deploys = append(deploys, d)
-		f.Contract[c.name] = ethcrypto.CreateAddress(f.E.Addr, uint64(i))
+		f.Contract[c.name] = ethcrypto.CreateAddress(dep.Addr, uint64(i))
 	}
 	run(deploys...)
 	run(
